@@ -568,6 +568,10 @@ func (e *Engine) mapFind(m MapV, k Value) int {
 	if m.m == nil {
 		return -1
 	}
+	if t, ok := k.(*Term); ok && t.Op != "c" && len(m.m.keys) > 0 {
+		// keys are very often pinned to one value by the path condition: find out once
+		k = e.uniqueValue(t)
+	}
 	for i := len(m.m.keys) - 1; i >= 0; i-- {
 		if e.decide(e.keyEq(m.m.keys[i], k)) {
 			return i
